@@ -234,8 +234,8 @@ void caseApply(Ctx &c, Rng &g) {
       Hasher h;
       h.s(desc);
       c.nontrivial(h.h);
+      if (c.caseId % 97 < 3) c.sample(desc + " -> " + splineStr(res), 2);
     }
-    c.sample(desc + " -> " + splineStr(res), 2);
   } catch (const BSplineException &e) {
     c.violation("C05", std::string("unexpected-throw/") + E::text,
                 desc + " threw " + e.what());
